@@ -69,6 +69,9 @@ func runStressRound(res *fw.Result, rng *rand.Rand, label string) *scenario {
 			spec.V = strings.TrimPrefix(spec.V, "lim")
 		}
 		p := sc.add(fmt.Sprintf("P%d", i), spec)
+		if rng.IntN(100) < 8 { // its own client connection fails when written to
+			p.wfault = 1 + rng.IntN(3)
+		}
 		switch r := rng.IntN(100); {
 		case r < 68:
 		case r < 74: // before it starts
